@@ -754,3 +754,56 @@ def registry_history(h):
             diff = [k for k in cold if warm.get(k) != cold[k]][:3]
             return {"reproduced": True, "call": "history %s: reports after interleaved queries vs a fresh database" % name, "observed": {repr(k): warm.get(k) for k in diff}, "expected": {repr(k): cold[k] for k in diff}}
     return {"reproduced": False}
+
+
+@probe("construct_forms")
+def construct_forms(h):
+    """C19: all construction forms build equal objects, for a sample of units (incl. units whose default
+    category is not their quantity type) and after requests that could disturb the intern table"""
+    from barril.units import Scalar, Array, FixedArray, ObtainQuantity
+    from barril.units.unit_database import UnitDatabase
+
+    db = UnitDatabase.GetSingleton()
+    units = ["m", "cm", "degC", "psi", "bbl/ft", "Btu/hr", "m3/d", "1/s"]
+    units = [u for u in units if u in db.unit_to_unit_info]
+    for rnd in range(2):
+        for u in units:
+            c = db.GetDefaultCategory(u)
+            qt = db.unit_to_unit_info[u].quantity_type
+            v = 2.5
+            forms = {
+                "(v,u)": lambda: Scalar(v, u),
+                "(v,u,c)": lambda: Scalar(v, u, c),
+                "(c,v,u)": lambda: Scalar(c, v, u),
+                "((v,u))": lambda: Scalar((v, u)),
+                "(quantity,v)": lambda: Scalar(ObtainQuantity(u, c), v),
+                "CreateWithQuantity": lambda: Scalar.CreateWithQuantity(ObtainQuantity(u, c), v),
+            }
+            objs = {k: f() for k, f in forms.items()}
+            ref = objs["(v,u,c)"]
+            for k, o in objs.items():
+                if not (o == ref and ref == o and o.GetCategory() == c and o.GetUnit() == u and o.GetValue() == v):
+                    return {"reproduced": True, "call": "Scalar%s with u=%r (round %d)" % (k, u, rnd), "observed": repr(o), "expected": repr(ref)}
+            vals = [1.0, 2.0, 3.0]
+            arrs = [Array(vals, u), Array(vals, u, c), Array(c, vals, u), Array(ObtainQuantity(u, c), vals), Array.CreateWithQuantity(ObtainQuantity(u, c), vals)]
+            fas = [FixedArray(3, vals, u), FixedArray(3, c, vals, u), FixedArray(3, ObtainQuantity(u, c), vals), FixedArray.CreateWithQuantity(ObtainQuantity(u, c), vals, dimension=3)]
+            for group in (arrs, fas):
+                for o in group:
+                    if not (o == group[0] and group[0] == o and o.GetCategory() == c):
+                        return {"reproduced": True, "call": "%s forms with u=%r (round %d)" % (type(o).__name__, u, rnd), "observed": repr(o), "expected": repr(group[0])}
+            # a request with the quantity-type-named category must not disturb the category-less forms
+            if qt in db.categories_to_quantity_types:
+                try:
+                    Scalar(v, u, qt)
+                except Exception:
+                    pass
+        for c in ("length", "temperature", "volume per length"):
+            if c in db.categories_to_quantity_types:
+                ci = db.GetCategoryInfo(c)
+                a, b = Scalar(c), Scalar(c, ci.default_value, ci.default_unit)
+                if a != b:
+                    return {"reproduced": True, "call": "Scalar(%r)" % c, "observed": repr(a), "expected": repr(b)}
+                r = eval(repr(a), {"Scalar": Scalar})
+                if r != a:
+                    return {"reproduced": True, "call": "eval(repr(%r))" % a, "observed": repr(r), "expected": repr(a)}
+    return {"reproduced": False}
